@@ -1,0 +1,32 @@
+//! Verification hook: crash points.
+//!
+//! Without the `verif` feature `crash_point` is an empty inline function. With it, the verification
+//! harness installs an observer that is told about every durable write (before it is issued and after
+//! it has been made durable) and may unwind there to simulate the process dying at that instant.
+
+#[cfg(not(feature = "verif"))]
+#[inline(always)]
+pub fn crash_point(_label: &'static str, _done: bool) {}
+
+#[cfg(feature = "verif")]
+pub use self::enabled::{crash_point, set_crash_observer};
+
+#[cfg(feature = "verif")]
+mod enabled {
+    use std::sync::{Arc, RwLock};
+
+    type Observer = Arc<dyn Fn(&'static str, bool) + Send + Sync>;
+    static OBSERVER: RwLock<Option<Observer>> = RwLock::new(None);
+
+    pub fn set_crash_observer(o: Option<Observer>) {
+        *OBSERVER.write().unwrap() = o;
+    }
+
+    /// `done = false`: the write is about to be issued; `done = true`: it has been made durable.
+    pub fn crash_point(label: &'static str, done: bool) {
+        let o = OBSERVER.read().unwrap().clone();
+        if let Some(o) = o {
+            o(label, done);
+        }
+    }
+}
